@@ -17,6 +17,19 @@ use crate::util::{Args, TraceOut, catch};
 
 // ------------------------------------------------------------------ C15: scheduled streams
 
+const ERR_KINDS: [io::ErrorKind; 10] = [
+    io::ErrorKind::Other,
+    io::ErrorKind::UnexpectedEof,
+    io::ErrorKind::TimedOut,
+    io::ErrorKind::WouldBlock,
+    io::ErrorKind::BrokenPipe,
+    io::ErrorKind::InvalidData,
+    io::ErrorKind::WriteZero,
+    io::ErrorKind::ConnectionAborted,
+    io::ErrorKind::NotFound,
+    io::ErrorKind::PermissionDenied,
+];
+
 /// A byte source that follows a schedule: at most `frag` bytes per call, `Interrupted` at the calls in `intr`,
 /// a hard error at call `err`.  It hands out as many bytes as the caller asks for (up to `frag`).
 pub struct SchedReader {
@@ -27,6 +40,24 @@ pub struct SchedReader {
     pub err: Option<usize>,
     pub calls: usize,
     pub log: Vec<Value>,
+    /// `storm.0` interrupted reads before the delivery of every byte position in `storm.1` (None: before every position)
+    pub storm: Option<(usize, Option<usize>)>,
+    pub storm_left: usize,
+    pub storm_done_at: Option<usize>,
+    pub kind: usize,
+}
+
+impl SchedReader {
+    fn push_intr(&mut self, req: usize) {
+        // consecutive interrupted calls are coalesced into one event with a count
+        if let Some(last) = self.log.last_mut() {
+            if last["ret"] == -1 && last["req"] == req {
+                last["times"] = json!(last["times"].as_u64().unwrap_or(1) + 1);
+                return;
+            }
+        }
+        self.log.push(json!({"e": "read", "req": req, "ret": -1, "times": 1}));
+    }
 }
 
 impl Read for SchedReader {
@@ -34,17 +65,40 @@ impl Read for SchedReader {
         let i = self.calls;
         self.calls += 1;
         if self.err == Some(i) {
-            self.log.push(json!({"e": "read", "req": buf.len(), "ret": -2}));
-            return Err(io::Error::new(io::ErrorKind::Other, "scheduled hard error"));
+            self.log.push(json!({"e": "read", "req": buf.len(), "ret": -2, "times": 1}));
+            return Err(io::Error::new(ERR_KINDS[self.kind % ERR_KINDS.len()], "scheduled hard error"));
         }
         if self.intr.contains(&i) {
-            self.log.push(json!({"e": "read", "req": buf.len(), "ret": -1}));
+            self.push_intr(buf.len());
             return Err(io::Error::new(io::ErrorKind::Interrupted, "scheduled interrupt"));
+        }
+        if let Some((n, at)) = self.storm {
+            if (at.is_none() || at == Some(self.pos)) && self.storm_done_at != Some(self.pos) {
+                if self.storm_left == 0 {
+                    self.storm_left = n;
+                }
+                self.storm_left -= 1;
+                if self.storm_left == 0 {
+                    self.storm_done_at = Some(self.pos);
+                }
+                self.push_intr(buf.len());
+                return Err(io::Error::new(io::ErrorKind::Interrupted, "interrupt storm"));
+            }
         }
         let k = buf.len().min(self.frag).min(self.src.len() - self.pos);
         buf[..k].copy_from_slice(&self.src[self.pos..self.pos + k]);
         self.pos += k;
-        self.log.push(json!({"e": "read", "req": buf.len(), "ret": k}));
+        // identical consecutive successful reads are coalesced into one event with a count
+        let coalesced = match self.log.last_mut() {
+            Some(last) if k > 0 && last["ret"] == k && last["req"] == buf.len() => {
+                last["times"] = json!(last["times"].as_u64().unwrap_or(1) + 1);
+                true
+            }
+            _ => false,
+        };
+        if !coalesced {
+            self.log.push(json!({"e": "read", "req": buf.len(), "ret": k, "times": 1}));
+        }
         Ok(k)
     }
 }
@@ -56,6 +110,7 @@ pub struct SchedWriter {
     pub err: Option<usize>,
     pub calls: usize,
     pub log: Vec<Value>,
+    pub kind: usize,
 }
 
 impl Write for SchedWriter {
@@ -65,7 +120,7 @@ impl Write for SchedWriter {
         let offered = j::bytes(buf);
         if self.err == Some(i) {
             self.log.push(json!({"e": "write", "offered": offered, "ret": -2}));
-            return Err(io::Error::new(io::ErrorKind::Other, "scheduled hard error"));
+            return Err(io::Error::new(ERR_KINDS[self.kind % ERR_KINDS.len()], "scheduled hard error"));
         }
         if self.intr.contains(&i) {
             self.log.push(json!({"e": "write", "offered": offered, "ret": -1}));
@@ -93,7 +148,12 @@ fn frame_result(r: &Result<Result<Frame<'static>, FrameError>, String>) -> Value
 
 /// Reads frames from the scheduled stream until it is exhausted, an I/O error happens, or `max` frames were read.
 fn run_reads(out: &mut TraceOut, src: &[u8], frag: usize, intr: Vec<usize>, err: Option<usize>, max: usize) -> usize {
-    let mut rd = SchedReader { src: src.to_vec(), pos: 0, frag, intr, err, calls: 0, log: vec![] };
+    run_reads_x(out, src, frag, intr, err, max, None, err.unwrap_or(0) + src.len())
+}
+
+#[allow(clippy::too_many_arguments)]
+fn run_reads_x(out: &mut TraceOut, src: &[u8], frag: usize, intr: Vec<usize>, err: Option<usize>, max: usize, storm: Option<(usize, Option<usize>)>, kind: usize) -> usize {
+    let mut rd = SchedReader { src: src.to_vec(), pos: 0, frag, intr, err, calls: 0, log: vec![], storm, storm_left: 0, storm_done_at: None, kind };
     out.emit(json!({"e": "rstart", "src": j::bytes(src)}));
     let mut n = 1;
     for _ in 0..max {
@@ -115,7 +175,7 @@ fn run_reads(out: &mut TraceOut, src: &[u8], frag: usize, intr: Vec<usize>, err:
 }
 
 fn run_write(out: &mut TraceOut, f: &Frame<'static>, limit: usize, intr: Vec<usize>, zero: Option<usize>, err: Option<usize>) -> usize {
-    let mut w = SchedWriter { limit, intr, zero, err, calls: 0, log: vec![] };
+    let mut w = SchedWriter { limit, intr, zero, err, calls: 0, log: vec![], kind: err.unwrap_or(0) + limit };
     out.emit(json!({"e": "wstart", "frame": j::frame(f)}));
     let r = catch(|| f.write(&mut w));
     let mut n = 2;
@@ -174,6 +234,29 @@ pub fn record_c15(a: &Args) -> usize {
                 n += run_reads(&mut out, src, frag, if e % 3 == 0 { vec![e / 2] } else { vec![] }, Some(e), 8);
             }
         }
+    }
+    // interrupt storms: very many interrupted reads within one frame read (they must stay invisible however often they occur)
+    {
+        let big = j::mk_frame(0xABCD, 0x11, &(0..255).map(|x| (x * 3) as u8).collect::<Vec<u8>>()).to_bytes_with_newline();
+        let small = cat(&[&f2.to_bytes_with_newline(), &f1.to_bytes_with_newline(), b"zz"]);
+        let mut two = big.clone();
+        two.extend_from_slice(&f1.to_bytes_with_newline());
+        out.balance();
+        n += run_reads_x(&mut out, &two, 1, vec![], None, 4, Some((if thorough { 400 } else { 150 }, None)), 0);
+        out.balance();
+        n += run_reads_x(&mut out, &small, usize::MAX, vec![], None, 4, Some((70_000, Some(0))), 0);
+        out.balance();
+        n += run_reads_x(&mut out, &small, 1, vec![], None, 4, Some((66_000, Some(5))), 0);
+        if thorough {
+            out.balance();
+            n += run_reads_x(&mut out, &small, 1, vec![], None, 4, Some((1_000_000, Some(small.len() - 4))), 0);
+        }
+        // a very long line of noise, then a frame
+        let mut noise: Vec<u8> = (0..70_000).map(|i| b"0123456789ABCDEF:xyz\r"[i % 21]).collect();
+        noise.push(b'\n');
+        noise.extend_from_slice(&f1.to_bytes_with_newline());
+        out.balance();
+        n += run_reads_x(&mut out, &noise, 4096, vec![], None, 4, None, 0);
     }
     // random long streams: up to 20 frames with data up to 255 bytes, malformed lines, missing final LF
     let nrand = if thorough { 400 } else { 25 };
@@ -602,6 +685,21 @@ fn reply_tapes(rng: &mut StdRng, own: u16) -> Vec<Vec<u8>> {
     firsts.push(Frame::from(Message::ReportState(Address(own.wrapping_add(1)), State::Unconfigured)).to_bytes_with_newline());
     firsts.push(j::mk_frame(9, 9, &[9]).to_bytes_with_newline());
     firsts.push(j::mk_frame(own, 4, &[0x55]).to_bytes_with_newline());
+    // a valid reply wrapped in one junk byte before or after (must be an error, not a reply)
+    let valid = Frame::from(Message::ReportState(a, State::Unconfigured)).to_bytes();
+    for junk in [0x00u8, 0x00, b' ', b'\r', 0xFF, b':', b'0'] {
+        let mut t = vec![junk];
+        if junk == 0 && firsts.len() % 2 == 0 {
+            t.push(0);
+        }
+        t.extend_from_slice(&valid);
+        t.extend_from_slice(b"\r\n");
+        firsts.push(t);
+        let mut t = valid.clone();
+        t.push(junk);
+        t.extend_from_slice(b"\r\n");
+        firsts.push(t);
+    }
     firsts.push(b":01\r\n".to_vec());
     firsts.push(b"\r\n".to_vec());
     firsts.push(b"\n".to_vec());
@@ -661,6 +759,42 @@ fn run_pm(out: &mut TraceOut, m: &Message<'static>, tape: &[u8], io_fail_at: Opt
     out.emit(ret);
 }
 
+/// Several messages on ONE bus, with a pattern of write / read faults (two consecutive faults, a fault then a success, ...).
+fn run_session(out: &mut TraceOut, msgs: &[Message<'static>], pattern: &[u8], tape: &[u8]) {
+    let st = Rc::new(RefCell::new(PortState::new(target_line())));
+    let mut bus = match SerialSignBus::try_new(IPort::new(st.clone())) {
+        Ok(b) => b,
+        Err(_) => return,
+    };
+    for (k, m) in msgs.iter().enumerate() {
+        let fault = pattern[k % pattern.len()]; // 0 none, 1 write fault, 2 read fault
+        let expects = matches!(m, Message::Hello(_) | Message::QueryState(_) | Message::RequestOperation(_, _));
+        {
+            let mut s = st.borrow_mut();
+            s.rx = tape.iter().copied().collect();
+            s.io_calls = 0;
+            s.io_fail_at = match fault {
+                1 => Some(0),
+                2 if expects => Some(1),
+                _ => None,
+            };
+            s.io_log.clear();
+            s.tx.clear();
+        }
+        out.emit(json!({"e": "pm", "m": j::msg(m), "rx": j::bytes(tape), "fail_at": fault}));
+        let r = catch(|| bus.process_message(m.clone()).map(|o| o.map(|x| j::msg_from(&j::msg(&x)))).map_err(|e| e.to_string()));
+        let s = st.borrow();
+        for ev in &s.io_log {
+            let mut e = ev.clone();
+            let o = e.as_object_mut().unwrap();
+            let _ = o.remove("t0");
+            let _ = o.remove("t1");
+            out.emit(e);
+        }
+        out.emit(json!({"e": "pmret", "res": pm_result(&r), "txd": j::bytes(&s.tx), "rxleft": s.rx.len()}));
+    }
+}
+
 pub fn record_c16(a: &Args) -> usize {
     let thorough = a.tier == "thorough";
     let mut rng = StdRng::seed_from_u64(a.seed ^ 0xC16);
@@ -685,6 +819,16 @@ pub fn record_c16(a: &Args) -> usize {
                 run_pm(&mut out, m, &tapes[n % tapes.len()], Some(f), false);
             }
         }
+    }
+    // sessions: every fault pattern of length 4 over {none, write fault, read fault} on one bus
+    let own = Address(3);
+    let session_msgs = vec![Message::PixelsComplete(own), Message::Hello(own), Message::DataChunksSent(ChunkCount(2)), Message::QueryState(own),
+                            Message::Goodbye(own), Message::RequestOperation(own, Operation::StartReset)];
+    let tape = Frame::from(Message::ReportState(own, State::ConfigReceived)).to_bytes_with_newline();
+    for code in 0..81u32 {
+        let pattern = [(code % 3) as u8, ((code / 3) % 3) as u8, ((code / 9) % 3) as u8, ((code / 27) % 3) as u8, 0, 0];
+        out.balance();
+        run_session(&mut out, &session_msgs, &pattern, &tape);
     }
     out.finish()
 }
